@@ -80,6 +80,9 @@ pub struct RunCfg {
     /// the flush of a completely written PINGREQ stays pending once and the application drops
     /// the operation there (timing profile)
     pub p_ping_flush_cancel: u32,
+    /// twin runs with a keep-alive in which time passes only in script steps: both executions
+    /// have the same timing and are compared PINGREQs included
+    pub twin_same_timing: bool,
     /// writes/flushes never stall or fail; used by timing profiles
     pub zero_time_io: bool,
     // broker policy (per mille)
@@ -193,6 +196,8 @@ pub enum RxMeta {
     Raw,
     /// duplicate PUBREC for an exchange already in its release phase
     DupPubRec { reason: u8 },
+    /// a second CONNACK on an established connection
+    SecondConnAck,
 }
 
 pub struct ConnState {
@@ -430,6 +435,10 @@ pub enum Expect {
     Invalid,
     /// malformed or incomplete bytes followed by EOF: either outcome is right
     InvalidOrEof,
+    /// a well-formed packet that violates the protocol state (second CONNACK): the client may
+    /// ignore it or reject it as invalid - C08 leaves that open - but if it reports the invalid
+    /// packet the handle is dead like after any other (C11)
+    MaybeInvalid,
 }
 
 // ------------------------------------------------------------------ events
@@ -530,6 +539,9 @@ pub struct World {
     pub op_start_t: u64,
     /// the application cancels the current operation at its next Pending
     pub cancel_once: bool,
+    /// FragTwin(4): the next packet the client starts (not a CONNECT) is accepted up to this
+    /// many bytes by its first write call, then the transport is dead
+    pub die_after_accepting: Option<usize>,
     /// the broker answered the last CONNACK with Session Expiry Interval 0
     pub broker_session_expiry_zero: bool,
     /// twin runs: the next operation is not cancelled (last attempt of a repeated disconnect)
@@ -621,6 +633,7 @@ impl World {
             never_enqueued: Vec::new(),
             op_start_t: 0,
             cancel_once: false,
+            die_after_accepting: None,
             broker_session_expiry_zero: false,
             no_cancel: false,
             qos0_cancelled: false,
@@ -944,6 +957,22 @@ impl World {
         }
         if let Some(e) = self.conns[conn].io_error {
             return Poll::Ready(Err(e));
+        }
+        if let Some(k) = self.die_after_accepting {
+            let c = &self.conns[conn];
+            if c.parsed == c.wire.len() && !buf.is_empty() && buf[0] >> 4 != 1 {
+                self.die_after_accepting = None;
+                let n = k.min(buf.len());
+                self.fault("transport_dies_after_partial_acceptance");
+                self.kind(14);
+                self.log(|| format!("write({}) -> Ok({}) {}  [the transport is dead after this call]", buf.len(), n, crate::util::hex(&buf[..n])));
+                self.conns[conn].bytes_moved += n as u64;
+                self.accept_bytes(conn, &buf[..n]);
+                let c = &mut self.conns[conn];
+                c.pending_offer = if c.parsed != c.wire.len() { Some(buf[n..].to_vec()) } else { None };
+                c.io_error = Some(embedded_io_async::ErrorKind::ConnectionReset);
+                return Poll::Ready(Ok(n));
+            }
         }
         if clock::now() < self.conns[conn].write_blocked_until {
             self.conns[conn].blocked = Blocked::WriteSlow;
